@@ -358,3 +358,108 @@ def rule_ax1(ctx, rels):
                         "between different units of the array",
                         instance=inst)
     r.require_count("AX1", "axis-sensitive calls in scope", n, 5)
+
+
+# ---------------------------------------------------------------------------
+# SH3: Transformation.apply end to end, on abstract objects
+
+
+PROJ_REL = "geometry_tools/projective.py"
+
+
+def rule_sh3(ctx):
+    from ..shape import AObj, AttributeErrorSim
+    r = ctx.r
+    r.rule("SH3", "Transformation.apply interpreted end to end on abstract "
+                  "objects (three slots known by symbolic shape): for every "
+                  "object kind, rank pair and broadcast mode each slot of "
+                  "the result has the documented composite shape followed "
+                  "by that slot's own unit shape")
+    core = ctx.p.module_by_rel(CORE)
+    proj = ctx.p.module_by_rel(PROJ_REL)
+    it = Interp(proj.tree, extra_trees=(("utils", core.tree),))
+    it.project = ctx.p
+    it.rel_prefix = {PROJ_REL: "", CORE: "utils"}
+    T = ctx.p.get_class(PROJ_REL, "Transformation")
+    ap = ctx.p.get_function(PROJ_REL, "Transformation.apply")
+    r.analysed(ap, ctx.p.get_function(PROJ_REL, "Transformation._apply_to_data"))
+    kinds = [
+        ("Point", dict(proj=("n",), unit_ndims=1)),
+        ("PointPair", dict(proj=(2, "n"), unit_ndims=2)),
+        ("Polygon", dict(proj=("k", "n"), aux=("k", 2, "n"), unit_ndims=2,
+                         aux_ndims=3)),
+        ("Segment-like", dict(proj=(2, "n"), aux=(2, "n"), unit_ndims=2,
+                              aux_ndims=2)),
+        ("ConvexPolygon", dict(proj=("k", "n"), aux=("k", 2, "n"),
+                               dual=("n",), unit_ndims=2, aux_ndims=3,
+                               dual_ndims=1)),
+        ("Transformation", dict(proj=("n", "n"), unit_ndims=2)),
+    ]
+    R = 2 if ctx.tier == "quick" else 3
+    total = 0
+    for kname, spec in kinds:
+        cls = ctx.p.get_class(PROJ_REL, kname) if kname in (
+            "Point", "PointPair", "Polygon", "ConvexPolygon",
+            "Transformation") else ctx.p.get_class(PROJ_REL, "PointPair")
+        bad = []
+        for mode in MODES:
+            for i in range(R + 1):
+                for j in range(R + 1):
+                    if mode == "elementwise":
+                        O = tuple(f"X{q}" for q in range(i, 0, -1))
+                        C = tuple(f"X{q}" for q in range(j, 0, -1))
+                    else:
+                        O = tuple(f"A{q}" for q in range(1, i + 1))
+                        C = tuple(f"C{q}" for q in range(1, j + 1))
+                    total += 1
+                    obj = AObj(
+                        cls,
+                        proj=AArr(O + spec["proj"]),
+                        aux=AArr(O + spec["aux"]) if "aux" in spec else None,
+                        dual=AArr(O + spec["dual"]) if "dual" in spec else None,
+                        unit_ndims=spec["unit_ndims"],
+                        aux_ndims=spec.get("aux_ndims", 0),
+                        dual_ndims=spec.get("dual_ndims", 0))
+                    tr = AObj(T, proj=AArr(C + ("n", "n")), unit_ndims=2)
+                    try:
+                        res = it.call_node(ap.node, [tr, obj, mode])
+                        if not isinstance(res, AObj):
+                            raise ShapeError(f"returned {res!r}")
+                        for slot in ("proj", "aux", "dual"):
+                            if slot not in spec:
+                                continue
+                            got = getattr(res, slot + "_data")
+                            want = expected(spec[slot], mode, O, C)
+                            if not isinstance(got, AArr) or got.shape != want:
+                                raise ShapeError(
+                                    f"{slot} data of the result has shape "
+                                    f"{getattr(got, 'shape', got)}, "
+                                    f"documented {want}")
+                        if res is obj:
+                            raise ShapeError("the argument object itself "
+                                             "was modified and returned")
+                    except (ShapeError, DataDependent) as e:
+                        bad.append((f"{kname} {O}+unit x transformations "
+                                    f"{C} [{mode}]", str(e)))
+                    except AttributeErrorSim as e:
+                        bad.append((f"{kname} {O} [{mode}]",
+                                    f"AttributeError: {e}"))
+        inst = f"apply[{kname}]"
+        if not bad:
+            r.ok("SH3", inst, loc(ap, ap.node), "",
+                 "all rank pairs x 3 modes: every slot has the documented "
+                 "shape")
+        else:
+            r.violation(
+                "SH3", f"{ap.fq}|{kname}", loc(ap, ap.node),
+                f"Transformation.apply on {kname}",
+                f"{len(bad)} configuration(s) fail; first: {bad[0][0]}: "
+                f"{bad[0][1]}. The transformed object's data no longer has "
+                "the composite shape of the object (and, for pairwise "
+                "modes, of the transformations) with each slot keeping its "
+                "own unit shape", instance=inst)
+    r.extra["SH3_configurations"] = total
+    return total
+
+
+rule_sh1.fatal_unsupported = True
